@@ -274,7 +274,9 @@ func GenPSet(model string, r *core.Rand, o genOpts) PSet {
 		p["DeltaT"] = one(deltaT(r))
 	case "ConstituentDecay":
 		p["X"] = one(r.Range(0, 1))
-		p["halfLife"] = one(pick(r, 0, r.Range(3600, 30*86400)))
+		// 0 = no decay; otherwise from an hour to "practically never" (a constituent that is conservative on any human
+		// time scale is given an astronomically long half-life rather than the special value 0)
+		p["halfLife"] = one(pick(r, 0, r.Range(3600, 30*86400), r.Range(3600, 30*86400), r.LogRange(1e7, 1e12), pick(r, 1e20, 1e30, 1e300, math.MaxFloat64)))
 		p["DeltaT"] = one(deltaT(r))
 	case "InstreamFineSediment":
 		if r.Bool(0.3) {
@@ -635,8 +637,24 @@ func GenInputs(model string, r *core.Rand, T int, ps PSet) [][]float64 {
 	case "FixedConcentration":
 		set("flow", flowSeries(r, T, 10))
 	case "PassLoadIfFlow":
-		set("flow", flowSeries(r, T, 10))
-		set("inputLoad", flowSeries(r, T, 5))
+		fl := flowSeries(r, T, 10)
+		if r.Bool(0.3) { // a stream that never quite dries up: strictly positive, down to far below the 1e-8 cut-off
+			for t := range fl {
+				if fl[t] <= 0 || r.Bool(0.15) {
+					fl[t] = r.LogRange(1e-12, 1e-6)
+				}
+			}
+		}
+		set("flow", fl)
+		ld := flowSeries(r, T, 5)
+		if r.Bool(0.5) {
+			for t := range ld {
+				if ld[t] == 0 {
+					ld[t] = r.Range(0.1, 5)
+				}
+			}
+		}
+		set("inputLoad", ld)
 	case "SednetParticulateNutrientGeneration":
 		for _, n := range []string{"fineSedModelFineSheetGeneratedKg", "fineSedModelCoarseSheetGeneratedKg", "fineSedModelFineGullyGeneratedKg", "fineSedModelCoarseGullyGeneratedKg"} {
 			set(n, flowSeries(r, T, 100))
